@@ -4,7 +4,7 @@
    draws are ANY rationals in the range the generator guarantees ([0,1) for uniforms). *)
 From Coq Require Import List Bool Arith QArith.
 Import ListNotations.
-From AgileV Require Import C14.Model C14.Proofs C14.ProofsBox C14.ProofsSupport.
+From AgileV Require Import C14.Model C14.Proofs C14.ProofsBox C14.ProofsSupport C14.ProofsMulti.
 Local Open Scope Q_scope.
 
 (* torch.argmax / np.argmax as modelled: an index of the list, maximal, and the first such *)
@@ -40,6 +40,13 @@ Theorem dqn_random_zero_draw_refuted :
                   nth_error legal (dqn_random_pinned u legal) = Some false.
 Proof. exact dqn_random_pinned_refuted_lemma. Qed.
 Print Assumptions dqn_random_zero_draw_refuted.
+
+(* ... and is legal exactly under the hypothesis the zero draw breaks: some legal entry draws a positive number *)
+Theorem random_pinned_legal_if_positive_draw : forall u legal k uk,
+  length u = length legal -> nth_error legal k = Some true -> nth_error u k = Some uk -> 0 < uk ->
+  nth_error legal (dqn_random_pinned u legal) = Some true.
+Proof. exact dqn_random_pinned_legal_if_positive. Qed.
+Print Assumptions random_pinned_legal_if_positive_draw.
 
 (* DQN, whole batch, any epsilon and any coins: one action per row and every action legal *)
 Theorem dqn_batch_shape : forall eps rows, length (dqn_get_action eps rows) = length rows.
@@ -223,6 +230,30 @@ Theorem multibinary_masked_bit_zero : forall l legal i b,
   nth_error legal i = Some false -> nth_error (binary_support l legal) i = Some b -> b = false.
 Proof. exact binary_masked_zero_lemma. Qed.
 Print Assumptions multibinary_masked_bit_zero.
+
+(* IPPO: masks of homogeneous agents are stacked agent-major; row i*B + r of the shared actor's batch is
+   governed by the mask of agent i in environment r, and every action it can sample there is legal for it *)
+Theorem ippo_stack_alignment : forall (A : Type) (per_agent : list (list A)) (B i r : nat),
+  Forall (fun m => length m = B) per_agent -> (r < B)%nat ->
+  nth_error (ippo_stack per_agent) (i * B + r) =
+  match nth_error per_agent i with Some m => nth_error m r | None => None end.
+Proof. exact @ippo_stack_row. Qed.
+Print Assumptions ippo_stack_alignment.
+
+Theorem ippo_rows_legal : forall l (masks : list (list (list bool))) B i r m S k xk,
+  Forall (fun ms => length ms = B) masks -> (r < B)%nat ->
+  nth_error masks i = Some m ->
+  nth_error (ippo_supports l masks) (i * B + r) = Some S ->
+  forall legal, nth_error m r = Some legal ->
+  nth_error legal k = Some true -> nth_error l k = Some xk -> NEG + UNDERFLOW <= xk ->
+  forall a, In a S -> nth_error legal a = Some true.
+Proof. exact ippo_rows_legal_lemma. Qed.
+Print Assumptions ippo_rows_legal.
+
+(* a DQN call without a mask is the plain first-maximum argmax *)
+Theorem dqn_policy_no_mask : forall q, dqn_policy q (repeat true (length q)) = argmax_first (map Some q).
+Proof. exact dqn_policy_no_mask_lemma. Qed.
+Print Assumptions dqn_policy_no_mask.
 
 (* ---------------------------------------------------------------- non-vacuity *)
 (* a tie between two legal maxima behind a masked larger value: first legal maximum wins *)
